@@ -8,6 +8,8 @@
 package c18
 
 import (
+	"github.com/EliCDavis/polyform/nodes"
+	"runtime"
 	"encoding/json"
 	"fmt"
 	"io"
@@ -39,6 +41,12 @@ type Case struct {
 	Capped bool    `json:"capped,omitempty"`
 	// Rungs of a ladder case: {rows, cols} or {sides, 0}.
 	Rungs [][2]int `json:"rungs,omitempty"`
+	// Via "node": the solid is requested through the constructor's node-graph wrapper
+	// (primitives.CubeNodeData, CylinderNodeData, HemisphereNodeData, UvSphereNodeData) with every
+	// input connected; the wrapper must build the solid the parameters describe.
+	Via string `json:"via,omitempty"`
+	// Procs > 0: the constructor runs with the process limited to that many processors.
+	Procs int `json:"procs,omitempty"`
 }
 
 const (
@@ -123,7 +131,31 @@ func cubeUVs(opt string) *primitives.CubeUVs {
 	return u
 }
 
+func nodeResult(m modeling.Mesh, err error) modeling.Mesh {
+	if err != nil {
+		panic(err)
+	}
+	return m
+}
+
 func build(cs Case) modeling.Mesh {
+	if cs.Procs > 0 {
+		defer runtime.GOMAXPROCS(runtime.GOMAXPROCS(cs.Procs))
+	}
+	if cs.Via == "node" {
+		f, n, b := func(v float64) nodes.NodeOutput[float64] { return nodes.Value(v).Out() }, func(v int) nodes.NodeOutput[int] { return nodes.Value(v).Out() }, func(v bool) nodes.NodeOutput[bool] { return nodes.Value(v).Out() }
+		switch cs.Kind {
+		case "uvsphere", "uvsphere-unwelded":
+			return nodeResult(primitives.UvSphereNodeData{Radius: f(cs.R), Rows: n(cs.Rows), Columns: n(cs.Cols), Weld: b(cs.Kind == "uvsphere")}.Process())
+		case "hemisphere":
+			return nodeResult(primitives.HemisphereNodeData{Radius: f(cs.R), Rows: n(cs.Rows), Columns: n(cs.Cols), Capped: b(cs.Capped)}.Process())
+		case "cylinder":
+			return nodeResult(primitives.CylinderNodeData{Radius: f(cs.R), Height: f(cs.H), Sides: n(cs.Sides), Top: b(true), Bottom: b(true)}.Process())
+		case "cube-quads":
+			return nodeResult(primitives.CubeNodeData{Width: f(cs.W), Height: f(cs.H), Depth: f(cs.D)}.Process())
+		}
+		panic("c18: no node wrapper for " + cs.Kind)
+	}
 	switch cs.Kind {
 	case "uvsphere":
 		return primitives.UVSphere(cs.R, cs.Rows, cs.Cols)
@@ -600,6 +632,65 @@ func run(c *core.Ctx) {
 			}
 		}
 	}
+	// node-graph wrappers: the same oracle on the solid each wrapper builds, every input connected
+	// and pairwise different
+	c.Bound("node_wrappers", "CubeNode, CylinderNode, HemisphereNode, UvSphereNode (welded and unwelded) over a cross-section of the grids")
+	for _, w := range sc.dims {
+		for _, h := range sc.dims {
+			for _, d := range sc.dims {
+				if c.Next() {
+					one(c, Case{Kind: "cube-quads", W: w, H: h, D: d, Via: "node"})
+				}
+			}
+		}
+	}
+	for _, b := range [][3]float64{{0.5, 3, 1}, {3, 0.37, 1}, {1.25, 2.5, 0.75}} {
+		if c.Next() {
+			one(c, Case{Kind: "cube-quads", W: b[0], H: b[1], D: b[2], Via: "node"})
+		}
+	}
+	for _, sides := range []int{3, 4, 5, 8, 17} {
+		for _, r := range sc.radii {
+			for _, h := range sc.heights {
+				if c.Next() {
+					one(c, Case{Kind: "cylinder", Sides: sides, R: r, H: h, Via: "node"})
+				}
+			}
+		}
+	}
+	for _, rc := range [][2]int{{2, 3}, {3, 4}, {4, 3}, {5, 8}, {9, 7}, {12, 5}} {
+		for _, r := range sc.radii {
+			for _, kind := range []string{"uvsphere", "uvsphere-unwelded"} {
+				if c.Next() {
+					one(c, Case{Kind: kind, Rows: rc[0], Cols: rc[1], R: r, Via: "node"})
+				}
+			}
+			if c.Next() {
+				one(c, Case{Kind: "hemisphere", Rows: rc[0], Cols: rc[1], R: r, Capped: true, Via: "node"})
+			}
+		}
+	}
+	// large in both directions, on 1, 3, 4 and 5 processors (a constructor that splits its work by
+	// the processor count shows only above its own size threshold and for counts the split does not divide)
+	large := [][2]int{{200, 200}, {256, 300}, {257, 256}, {3, 20000}, {1025, 33}, {182, 181}}
+	procs := []int{1, 3, 4, 5}
+	c.Bound("large_on_limited_processors", fmt.Sprintf("rows x columns %v (spheres, hemisphere), cylinder sides 40000 and 65539, on %v processors", large, procs))
+	for _, pr := range procs {
+		for _, rc := range large {
+			for _, kind := range []string{"uvsphere", "uvsphere-unwelded", "hemisphere"} {
+				if c.Next() {
+					one(c, Case{Kind: kind, Rows: rc[0], Cols: rc[1], R: 2, Capped: true, Procs: pr})
+				}
+			}
+		}
+		for _, sides := range []int{40000, 65539} {
+			for _, uv := range []string{"none", "all"} {
+				if c.Next() {
+					one(c, Case{Kind: "cylinder", Sides: sides, R: 1, H: 0.5, UV: uv, Procs: pr})
+				}
+			}
+		}
+	}
 	for _, kind := range []string{"ladder-uvsphere", "ladder-uvsphere-unwelded", "ladder-hemisphere", "ladder-cylinder"} {
 		for _, r := range sc.radii {
 			if c.Next() {
@@ -635,6 +726,12 @@ func one(c *core.Ctx, cs Case) (vol float64, ok bool) {
 	var m modeling.Mesh
 	o := core.Guard(func() { m = build(cs) })
 	sn := scopeName(cs)
+	if cs.Via != "" {
+		sn += "/via-" + cs.Via
+	}
+	if cs.Procs > 0 {
+		sn += "/processors-limited"
+	}
 	alarmed := !(cs.Kind == "hemisphere" && !cs.Capped)
 	c.Sample(sn, cs)
 	if o.Panicked {
@@ -674,7 +771,7 @@ func one(c *core.Ctx, cs Case) (vol float64, ok bool) {
 		c.Eval("hemisphere.normals", hn)
 	}
 	if vd.tris > 0 {
-		c.Nontrivial(cs.Kind, cs.Rows, cs.Cols, cs.Sides, cs.R, cs.H, cs.W, cs.D, cs.UV, fmt.Sprint(cs.Capped))
+		c.Nontrivial(cs.Kind, cs.Rows, cs.Cols, cs.Sides, cs.R, cs.H, cs.W, cs.D, cs.UV, fmt.Sprint(cs.Capped), cs.Via, cs.Procs)
 	}
 	return vd.volume, out == "ok"
 }
